@@ -34,9 +34,17 @@ static char keys[64][64]; static int nkeys;
 static void learn_key (const char *k) { int i; for (i = 0; i < nkeys; i++) if (!strcmp (keys[i], k)) return; if (nkeys < 64) snprintf (keys[nkeys++], 64, "%s", k); }
 /* ---------------- system call wrappers (only calls made while a library call is in progress count) */
 static __thread int in_lib;
+/* fault enumeration over system calls: "failsys K" makes the K-th system call the library issues inside the next creation fail */
+static int sysfail_k, sys_no;
+static int sysfail (const char *call) {
+	if (!in_lib || sysfail_k <= 0) return 0;
+	if (++sys_no != sysfail_k) return 0;
+	vt_emit ("{\"e\":\"sysfail\",\"call\":\"%s\",\"k\":%d}", call, sysfail_k);
+	return 1;
+}
 static long ptr_id (void *p) { return p ? (long) (((uintptr_t) p >> 4) & 0x3fffffff) + 1 : 0; }
-int __real_socket (int, int, int); int __wrap_socket (int d, int t, int p) { int r = __real_socket (d, t, p); if (in_lib) vt_emit ("{\"e\":\"fd_open\",\"fd\":%d,\"by\":\"socket\"}", r); return r; }
-int __real_accept (int, struct sockaddr *, socklen_t *); int __wrap_accept (int s, struct sockaddr *a, socklen_t *l) { int r = __real_accept (s, a, l); if (in_lib && r >= 0) vt_emit ("{\"e\":\"fd_open\",\"fd\":%d,\"by\":\"accept\"}", r); return r; }
+int __real_socket (int, int, int); int __wrap_socket (int d, int t, int p) { int r; if (sysfail ("socket")) { errno = EMFILE; return -1; } r = __real_socket (d, t, p); if (in_lib) vt_emit ("{\"e\":\"fd_open\",\"fd\":%d,\"by\":\"socket\"}", r); return r; }
+int __real_accept (int, struct sockaddr *, socklen_t *); int __wrap_accept (int s, struct sockaddr *a, socklen_t *l) { int r; if (sysfail ("accept")) { errno = ENOMEM; return -1; } r = __real_accept (s, a, l); if (in_lib && r >= 0) vt_emit ("{\"e\":\"fd_open\",\"fd\":%d,\"by\":\"accept\"}", r); return r; }
 /* close_eintr > 0: the next close of the library is interrupted the way this platform does it - the descriptor is released, the call reports EINTR */
 static int close_eintr;
 int __real_close (int); int __wrap_close (int fd) {
@@ -44,14 +52,15 @@ int __real_close (int); int __wrap_close (int fd) {
 	if (in_lib && close_eintr > 0) { close_eintr--; __real_close (fd); errno = EINTR; return -1; }
 	return __real_close (fd);
 }
-FILE *__real_fopen (const char *, const char *); FILE *__wrap_fopen (const char *p, const char *m) { FILE *f = __real_fopen (p, m); if (in_lib) vt_emit ("{\"e\":\"file_open\",\"id\":%ld}", ptr_id (f)); return f; }
+FILE *__real_fopen (const char *, const char *); FILE *__wrap_fopen (const char *p, const char *m) { FILE *f; if (sysfail ("fopen")) { errno = EMFILE; return NULL; } f = __real_fopen (p, m); if (in_lib) vt_emit ("{\"e\":\"file_open\",\"id\":%ld}", ptr_id (f)); return f; }
 int __real_fclose (FILE *); int __wrap_fclose (FILE *f) { if (in_lib) vt_emit ("{\"e\":\"file_close\",\"id\":%ld}", ptr_id (f)); return __real_fclose (f); }
-DIR *__real_opendir (const char *); DIR *__wrap_opendir (const char *p) { DIR *d = __real_opendir (p); if (in_lib) vt_emit ("{\"e\":\"dir_open\",\"id\":%ld}", ptr_id (d)); return d; }
+DIR *__real_opendir (const char *); DIR *__wrap_opendir (const char *p) { DIR *d; if (sysfail ("opendir")) { errno = EMFILE; return NULL; } d = __real_opendir (p); if (in_lib) vt_emit ("{\"e\":\"dir_open\",\"id\":%ld}", ptr_id (d)); return d; }
 int __real_closedir (DIR *); int __wrap_closedir (DIR *d) { if (in_lib) vt_emit ("{\"e\":\"dir_close\",\"id\":%ld}", ptr_id (d)); return __real_closedir (d); }
-void *__real_mmap (void *, size_t, int, int, int, off_t); void *__wrap_mmap (void *a, size_t len, int pr, int fl, int fd, off_t o) { void *r = __real_mmap (a, len, pr, fl, fd, o); if (in_lib) vt_emit ("{\"e\":\"mmap\",\"id\":%ld,\"len\":%ld}", r == MAP_FAILED ? 0L : ptr_id (r), (long) len); return r; }
+void *__real_mmap (void *, size_t, int, int, int, off_t); void *__wrap_mmap (void *a, size_t len, int pr, int fl, int fd, off_t o) { void *r; if (fd >= 0 && sysfail ("mmap")) { errno = ENOMEM; if (in_lib) vt_emit ("{\"e\":\"mmap\",\"id\":0,\"len\":%ld}", (long) len); return MAP_FAILED; } r = __real_mmap (a, len, pr, fl, fd, o); if (in_lib) vt_emit ("{\"e\":\"mmap\",\"id\":%ld,\"len\":%ld}", r == MAP_FAILED ? 0L : ptr_id (r), (long) len); return r; }
 int __real_munmap (void *, size_t); int __wrap_munmap (void *a, size_t len) { if (in_lib) vt_emit ("{\"e\":\"munmap\",\"id\":%ld,\"len\":%ld}", ptr_id (a), (long) len); return __real_munmap (a, len); }
 sem_t *__real_sem_open (const char *, int, ...);
 sem_t *__wrap_sem_open (const char *name, int oflag, ...) {
+	if (sysfail ("sem_open")) { errno = ENOSPC; return SEM_FAILED; }
 	sem_t *r; mode_t mode = 0; unsigned value = 0; va_list ap;
 	if (oflag & O_CREAT) { va_start (ap, oflag); mode = (mode_t) va_arg (ap, int); value = va_arg (ap, unsigned); va_end (ap); }
 	r = (oflag & O_CREAT) ? __real_sem_open (name, oflag, mode, value) : __real_sem_open (name, oflag);
@@ -61,9 +70,9 @@ sem_t *__wrap_sem_open (const char *name, int oflag, ...) {
 }
 int __real_sem_close (sem_t *); int __wrap_sem_close (sem_t *s) { if (in_lib) vt_emit ("{\"e\":\"sem_close\",\"id\":%ld}", ptr_id (s)); return __real_sem_close (s); }
 int __real_sem_unlink (const char *); int __wrap_sem_unlink (const char *n) { int r = __real_sem_unlink (n); if (in_lib && r == 0) vt_emit ("{\"e\":\"sem_unlink\",\"key\":\"%s\"}", n); return r; }
-int __real_shm_open (const char *, int, mode_t); int __wrap_shm_open (const char *n, int f, mode_t m) { int r = __real_shm_open (n, f, m); if (in_lib) learn_key (n); if (in_lib) vt_emit ("{\"e\":\"shm_open\",\"fd\":%d,\"key\":\"%s\",\"created\":%d}", r, n, (f & O_CREAT) && r >= 0 ? 1 : 0); return r; }
+int __real_shm_open (const char *, int, mode_t); int __wrap_shm_open (const char *n, int f, mode_t m) { int r; if (sysfail ("shm_open")) { errno = ENOSPC; return -1; } r = __real_shm_open (n, f, m); if (in_lib) learn_key (n); if (in_lib) vt_emit ("{\"e\":\"shm_open\",\"fd\":%d,\"key\":\"%s\",\"created\":%d}", r, n, (f & O_CREAT) && r >= 0 ? 1 : 0); return r; }
 int __real_shm_unlink (const char *); int __wrap_shm_unlink (const char *n) { int r = __real_shm_unlink (n); if (in_lib && r == 0) vt_emit ("{\"e\":\"shm_unlink\",\"key\":\"%s\"}", n); return r; }
-void *__real_dlopen (const char *, int); void *__wrap_dlopen (const char *p, int f) { void *r = __real_dlopen (p, f); if (in_lib) vt_emit ("{\"e\":\"dlopen\",\"id\":%ld}", ptr_id (r)); return r; }
+void *__real_dlopen (const char *, int); void *__wrap_dlopen (const char *p, int f) { void *r; if (sysfail ("dlopen")) return NULL; r = __real_dlopen (p, f); if (in_lib) vt_emit ("{\"e\":\"dlopen\",\"id\":%ld}", ptr_id (r)); return r; }
 int __real_dlclose (void *); int __wrap_dlclose (void *h) { if (in_lib) vt_emit ("{\"e\":\"dlclose\",\"id\":%ld}", ptr_id (h)); return __real_dlclose (h); }
 
 /* ---------------- independent snapshot */
@@ -103,12 +112,23 @@ int __wrap_poll (struct pollfd *f, nfds_t n, int t) {
 /* resolver results: obtained with getaddrinfo, to be released with freeaddrinfo (recorded in the ledger's set of stream-like handles) */
 #include <netdb.h>
 int __real_getaddrinfo (const char *, const char *, const struct addrinfo *, struct addrinfo **);
-int __wrap_getaddrinfo (const char *n, const char *sv, const struct addrinfo *h, struct addrinfo **res) { int r = __real_getaddrinfo (n, sv, h, res); if (in_lib && r == 0 && res && *res) vt_emit ("{\"e\":\"file_open\",\"id\":%ld,\"by\":\"getaddrinfo\"}", ptr_id (*res)); return r; }
+int __wrap_getaddrinfo (const char *n, const char *sv, const struct addrinfo *h, struct addrinfo **res) { int r; if (sysfail ("getaddrinfo")) return EAI_MEMORY; r = __real_getaddrinfo (n, sv, h, res); if (in_lib && r == 0 && res && *res) vt_emit ("{\"e\":\"file_open\",\"id\":%ld,\"by\":\"getaddrinfo\"}", ptr_id (*res)); return r; }
 void __real_freeaddrinfo (struct addrinfo *);
 void __wrap_freeaddrinfo (struct addrinfo *a) { if (in_lib && a) vt_emit ("{\"e\":\"file_close\",\"id\":%ld,\"by\":\"freeaddrinfo\"}", ptr_id (a)); __real_freeaddrinfo (a); }
+#define FAILWRAP(ret, name, proto, args, err) ret __real_##name proto; ret __wrap_##name proto { if (sysfail (#name)) { errno = err; return -1; } return __real_##name args; }
+FAILWRAP (int, bind, (int fd, const struct sockaddr *a, socklen_t l), (fd, a, l), ENOMEM)
+FAILWRAP (int, listen, (int fd, int b), (fd, b), ENOBUFS)
+FAILWRAP (int, connect, (int fd, const struct sockaddr *a, socklen_t l), (fd, a, l), ENOBUFS)
+FAILWRAP (int, setsockopt, (int fd, int lv, int o, const void *v, socklen_t n), (fd, lv, o, v, n), ENOBUFS)
+FAILWRAP (int, getsockopt, (int fd, int lv, int o, void *v, socklen_t *n), (fd, lv, o, v, n), ENOBUFS)
+FAILWRAP (int, getpeername, (int fd, struct sockaddr *a, socklen_t *l), (fd, a, l), ENOBUFS)
+FAILWRAP (int, ftruncate, (int fd, off_t n), (fd, n), ENOSPC)
+int __real_fcntl (int, int, long); int __wrap_fcntl (int fd, int cmd, long arg) { if (sysfail ("fcntl")) { errno = ENOLCK; return -1; } return __real_fcntl (fd, cmd, arg); }
+int __real_pthread_create (pthread_t *, const pthread_attr_t *, void *(*) (void *), void *);
+int __wrap_pthread_create (pthread_t *t, const pthread_attr_t *a, void *(*f) (void *), void *arg) { if (sysfail ("pthread_create")) return EAGAIN; return __real_pthread_create (t, a, f, arg); }
 static int getsockname_fail;
 int __real_getsockname (int, struct sockaddr *, socklen_t *);
-int __wrap_getsockname (int fd, struct sockaddr *a, socklen_t *l) { if (in_lib && getsockname_fail > 0) { getsockname_fail--; errno = ENOBUFS; return -1; } return __real_getsockname (fd, a, l); }
+int __wrap_getsockname (int fd, struct sockaddr *a, socklen_t *l) { if (sysfail ("getsockname")) { errno = ENOBUFS; return -1; } if (in_lib && getsockname_fail > 0) { getsockname_fail--; errno = ENOBUFS; return -1; } return __real_getsockname (fd, a, l); }
 static pint icmp (pconstpointer a, pconstpointer b) { return (pint) ((intptr_t) a - (intptr_t) b); }
 static ppointer thr_fn (ppointer arg) { (void) arg; return NULL; }
 static PSocketAddress *loop0 (void) { return p_socket_address_new ("127.0.0.1", 0); }
@@ -271,9 +291,12 @@ int main (int argc, char **argv) {
 		if (!strcmp (op, "scenario")) { vt_emit ("{\"e\":\"Reset\"}"); nobjs = 0; nkeys = 0; snapshot ("baseline"); }
 		else if (!strcmp (op, "acq")) {
 			Obj o; int want = strcmp (how, "fail") != 0, got = acquire (kind, want, &o);
-			vt_emit ("{\"e\":\"acq\",\"kind\":\"%s\",\"want_ok\":%d,\"got_ok\":%d}", kind, want, got);
-			if (got && nobjs < MAXO) objs[nobjs++] = o; else if (got) release (&o);
+			vt_emit ("{\"e\":\"acq\",\"kind\":\"%s\",\"want_ok\":%d,\"got_ok\":%d,\"sysfail\":%d}", kind, want, got, sysfail_k > 0 && sys_no >= sysfail_k ? sysfail_k : 0);
+			{ int sf = sysfail_k > 0; sysfail_k = 0;
+			  /* after an injected failure whatever part of the object exists is kept and freed with the rest */
+			  if ((got || (sf && (o.a || o.b || o.c || o.aux))) && nobjs < MAXO) objs[nobjs++] = o; else if (got) release (&o); }
 		}
+		else if (!strcmp (op, "failsys")) { sysfail_k = atoi (kind); sys_no = 0; }
 		else if (!strcmp (op, "rel")) { idx = atoi (kind); if (idx >= 0 && idx < nobjs && objs[idx].kind) { vt_emit ("{\"e\":\"rel\",\"kind\":\"%s\"}", objs[idx].kind); release (&objs[idx]); objs[idx].kind = NULL; } }
 		else if (!strcmp (op, "relall")) { int i; for (i = nobjs - 1; i >= 0; i--) if (objs[i].kind) { vt_emit ("{\"e\":\"rel\",\"kind\":\"%s\"}", objs[i].kind); release (&objs[i]); objs[i].kind = NULL; } nobjs = 0; }
 		else if (!strcmp (op, "quiesce")) snapshot ("quiesce");
